@@ -1009,6 +1009,9 @@ func (fr *Frame) refOf(x *Val) string {
 type invExpr = *Expr
 
 func (fr *Frame) loopInvariants(ord int) []*Expr {
+	if fr.u.noLoopInv {
+		return nil
+	}
 	if fr.depth != 0 {
 		// an inlined function (typically a deferred closure): its own contract may carry loop invariants
 		if ct := fr.u.eng.contractFor(fr.fn); ct != nil {
